@@ -4,6 +4,7 @@ package main
 
 import (
 	"fmt"
+	"os"
 	"sort"
 	"go/token"
 	"go/types"
@@ -153,6 +154,9 @@ func (e *Engine) doCall(fr *Frame, st *State, c *ssa.CallCommon, fnv *Val, args 
 		}
 		e.unknownCall(fr, st, key, sig, args, pos, k)
 		return
+	}
+	if fr.depth == 0 && fr.fn == e.curFn && e.curC != nil {
+		e.atCallChecks(fr, st, "$dynamic", args, pos) // `atcall $dynamic: ...`: a call through a function value
 	}
 	e.unknownCall(fr, st, "funcvalue:"+c.Value.Name(), sig, args, pos, k)
 }
@@ -1035,6 +1039,9 @@ func (e *Engine) atCallChecks(fr *Frame, st *State, callee string, args []*Val, 
 		}
 		v, err := ctx.evalAs(cl.E, sBool)
 		if err != nil {
+			if os.Getenv("GOVC_DEBUG_ATCALL") != "" {
+				fmt.Fprintln(os.Stderr, "atcall skip:", cl.Callee, err)
+			}
 			if strings.Contains(err.Error(), "unknown identifier") {
 				// a local the clause mentions does not exist (yet) on this path: the clause is about the call
 				// sites where it does; a clause that is evaluated at no call site at all is an error (main.go)
